@@ -129,6 +129,32 @@ def fields_view(f):
 
 
 # ---- reference replay: the document as a sequence of primitive setter steps ---------------------------------------
+def enc_cps(t):
+    return ".".join(str(ord(ch)) for ch in t)
+
+
+def enc_scalar(v):
+    """a JSON value as `int()` sees it (Model.C47.Scalar)"""
+    if v is None: return "n"
+    if isinstance(v, bool): return "b"
+    if isinstance(v, int): return "i"
+    if isinstance(v, float): return "f1" if (v == v and v not in (INF, -INF)) else "f0"
+    if isinstance(v, str): return "s" + enc_cps(v)
+    return "c"
+
+
+def enc_container(v):
+    """a JSON value as `for header in v: headers.add(*_str_pair(header))` sees it (Model.C47.Container)"""
+    if isinstance(v, str): return "C%d" % len(v)
+    if isinstance(v, dict): return "K%d" % len(v)
+    if not isinstance(v, list): return "N"
+    out = ["L"]
+    for e in v:
+        if not isinstance(e, list): out.append("x")
+        else: out.append(",".join(["q"] + [("s" + enc_cps(i)) if isinstance(i, str) else "o" for i in e]))
+    return ";".join(out)
+
+
 class St:
     """one primitive setter step: the thunk, the field it writes and the kind of write (set / clear / add)"""
     def __init__(self, fn, field, kind): self.fn, self.field, self.kind = fn, field, kind
@@ -380,6 +406,7 @@ class Check(PropertyCheck):
             scratch = mkflow(case["flow"], case.get("init"))
             for st_ in committed: st_(scratch)
             toks, failed, effects, done = [], False, [], []
+            conv, conv_obs = [], []
 
             def run(steps):
                 nonlocal failed, eff
@@ -423,13 +450,21 @@ class Check(PropertyCheck):
                                 toks.append("k:%s:_" % k.encode().hex())
                             else:
                                 reached_setter = True
-                                toks.append("k:%s:%s" % (k.encode().hex(), run(steps)))
+                                was_failed = failed
+                                pat = run(steps)
+                                toks.append("k:%s:%s" % (k.encode().hex(), pat))
+                                present = (a == "request") or resp_mode == 2
+                                if not was_failed and present and k in ("port", "code", "headers", "trailers") and \
+                                        not (a == "request" and k == "code") and not (a == "response" and k == "port"):
+                                    v = doc[a][k]
+                                    conv.append(("conv int " + enc_scalar(v)) if k in ("port", "code") else ("conv hdr " + enc_container(v)))
+                                    conv_obs.append("".join(ch for ch in pat if ch in "+-"))
                         toks.append("}")
                         if not dispatched: failed = True      # falls through to "Unknown update request: ..."
             all_state = snap(scratch)["state"] if not failed else None
             out.append({"line": "put %d %d %s" % (int(has_req), resp_mode, " ".join(toks) if toks else "."),
                         "all_state": all_state, "ref_failed": failed, "effects": effects, "reached": reached_setter,
-                        "vals": vals, "orig": orig})
+                        "vals": vals, "orig": orig, "conv": conv, "conv_obs": conv_obs})
             if not failed:
                 # commit on the reference flow exactly what the handler is specified to do on success
                 f.backup()
@@ -505,14 +540,16 @@ class Check(PropertyCheck):
     # ------------------------------------------------------------------ model tie
     def model_lines(self, case):
         ref = self._analyse(case)
-        return ["reset %d" % case["pre_backup"]] + [r["line"] for r in ref]
+        return ["reset %d" % case["pre_backup"]] + [r["line"] for r in ref] + [c for r in ref for c in r["conv"]]
 
     def model_obs(self, case, replies):
         # reply: "<ok|refused> <cur ids|-> <backup ids|none>"
         if not replies[0].startswith("ok"): return replies
         ref = self._analyse(case)
         out, curs = [], [[]]
-        for rep, r in zip(replies[1:], ref):
+        nput = len(ref)
+        predicted = list(replies[1 + nput:])          # the model's prediction of the int()/header-loop step patterns
+        for rep, r in zip(replies[1:1 + nput], ref):
             p = rep.split(" ")
             if len(p) != 4: out.append(rep); continue
             ids = lambda s: [] if s == "-" else [int(x) for x in s.split(",")]
@@ -536,10 +573,11 @@ class Check(PropertyCheck):
                     fv.append(dig([r["vals"][i] for i in ids_f if r["vals"].get(i) is not None]))
                 else: fv.append("?" + lab_f)
             out.append([p[0], lab, bl, fv])
-        return out
+        return out + [predicted]
 
     def impl_view(self, case, obs):
-        return [["ok" if s["status"] == 200 else "refused", s["state"], s["backup"], s["fields"]] for s in obs["steps"]]
+        observed = [c for r in self._analyse(case) for c in r["conv_obs"]]     # what the real setters did (reference replay)
+        return [["ok" if s["status"] == 200 else "refused", s["state"], s["backup"], s["fields"]] for s in obs["steps"]] + [observed]
 
     def classify(self, case, obs):
         return json.dumps(case, sort_keys=True) if any(isinstance(d, dict) and d for d in case["docs"]) else None
